@@ -492,13 +492,9 @@ func ruleYieldRoomCoversPushes(c *Ctx) {
 	}
 	p.computeNoReturn()
 	var nargs, kill *ssa.Parameter
-	for _, pm := range fn.Params {
-		switch pm.Name() {
-		case "nargs":
-			nargs = pm
-		case "kill":
-			kill = pm
-		}
+	// by position and type, never by name: (L *LState, nargs int, haserror bool, kill bool)
+	if len(fn.Params) == 4 && fn.Params[1].Type().String() == "int" && fn.Params[3].Type().String() == "bool" {
+		nargs, kill = fn.Params[1], fn.Params[3]
 	}
 	calls := callsTo(fn, canHold)
 	if nargs == nil || kill == nil || len(calls) == 0 {
